@@ -96,6 +96,13 @@ func verifBound(name string) int {
 	return int(v)
 }
 
+func verifBoundOr(name string, def int) int {
+	if v, ok := verifState.bounds[name]; ok {
+		return int(v)
+	}
+	return def
+}
+
 func verifAssume(c bool) {
 	if !c {
 		verifExit("VERIF-ASSUME-FAILED", 3)
